@@ -142,7 +142,9 @@ add("C04", "BSTR+CH (+ concrete table diff)",
     "defaults of required scalar non-path non-body fields and the numeric-enum marker; for ALL (verb, path-variable "
     "subset, body kind) query_params/path_params equal the reference split. The emitted option tables equal the rule "
     "bindings in order (concrete diff, labelled as such); the emitted _get_response of every REST method sends a payload "
-    "iff its binding declares a body, for every verb.",
+    "iff its binding declares a body, for every verb; the emitted __call__ of every REST stub wires its own options, the "
+    "transcoded request, body/query, its own _get_response, the error branch (status >= 400) and the parse into the "
+    "declared output type, for ALL (stub, status class, timeout, metadata).",
     "DESIGN.md section 5 C04",
     "URL expansion, query flattening, JSON encoding and reply parsing are api_core/protobuf/requests code and outside "
     "the claim; json_format/json are pass-through stubs. Dotted path variables in path_params and defaults of "
